@@ -503,3 +503,18 @@ Definition fval_eqb (a b : fval) : bool :=
 Definition all_fids : list fid := [F_surface; F_hwlen; F_pos; F_norm; F_dfwi; F_dicform; F_reading; F_a; F_b; F_ws; F_syn].
 Definition winfo_eqb (a b : winfo) : bool := forallb (fun f => fval_eqb (a f) (b f)) all_fids.
 Definition obytes_eqb (a : option bytes) (b : bytes) : bool := match a with Some x => nlist_eqb x b | None => false end.
+
+(* WordParams::get_params on the bytes of the params array *)
+Definition read_params (bs : bytes) : option (Z * Z * Z) :=
+  match bs with
+  | b0 :: b1 :: b2 :: b3 :: b4 :: b5 :: _ => Some (to_i16 (b0 + 256 * b1), to_i16 (b2 + 256 * b3), to_i16 (b4 + 256 * b5))
+  | _ => None
+  end.
+
+(* what C05 demands of a loaded entry, in terms of the declared one ("" in a form column = same as the headword) *)
+Definition or_headword (e : entry) (t : text) : text := match t with [] => e_headword e | _ => t end.
+Definition entry_ok (e : entry) : bool :=
+  forallb is_scalar (e_headword e) && forallb is_scalar (e_norm e) && forallb is_scalar (e_reading e)
+  && (e_pos e <? 65536) && (e_dic_form e <? 4294967296)
+  && forallb (fun x => x <? 4294967296) (e_splits_a e) && forallb (fun x => x <? 4294967296) (e_splits_b e)
+  && forallb (fun x => x <? 4294967296) (e_word_structure e) && forallb (fun x => x <? 4294967296) (e_synonyms e).
